@@ -19,6 +19,8 @@ func init() {
 					}
 				} else {
 					cs = append(cs, mkCase("", "c02", "HOpsFixed", cfg, kind, 2, 1, 2, 0, 4), mkCase("", "c02", "HOpsFixed", cfg, kind, 2, 1, 2, 1, 4))
+					// a read-only handle with all 8 core operations (Seek beyond the end, then Read / ReadAt)
+					cs = append(cs, mkCase("", "c02", "HOpsFixed", cfg, kind, 2, 1, 2, 2, 8))
 				}
 				for e := int64(0); e <= 3; e++ {
 					calls := int64(3)
@@ -38,7 +40,7 @@ func init() {
 			if tier == "thorough" {
 				return map[string]any{"file_len0": "0,2,3 symbolic bytes", "handles": "1..2", "history_length": "1 with symbolic flags (one handle); 2 with 5 fixed flag sets and the 8 core operations (4 core operations for two handles); two handles with symbolic flags did not finish within 15 min and are outside", "buffer_lengths": "0..3 (read), 0..2 (write)", "max_file_size_reached": 8, "dir_entries": "0..3", "dir_read_calls": 4, "outside": "longer histories, 3 handles, files larger than 8 bytes (CUT), access mode 3, directory seeks"}
 			}
-			return map[string]any{"file_len0": "0,3 symbolic bytes", "handles": 1, "history_length": "1 with symbolic flags and all 15 operations; 2 with 2 fixed flag sets (O_RDWR, O_RDWR|O_APPEND) and 4 core operations (Seek, Write, Truncate, path Truncate)", "buffer_lengths": "0..3 (read), 0..2 (write)", "max_file_size_reached": 8, "dir_entries": "0..3", "dir_read_calls": 3, "outside": "longer histories, several handles (thorough), files larger than 8 bytes (CUT), access mode 3, directory seeks"}
+			return map[string]any{"file_len0": "0,3 symbolic bytes", "handles": 1, "history_length": "1 with symbolic flags and all 15 operations; 2 with 2 fixed flag sets (O_RDWR, O_RDWR|O_APPEND) and 4 core operations (Seek, Write, Truncate, path Truncate), and with O_RDONLY and the 8 core operations (+ Read, WriteAt, path Remove, ReadAt)", "buffer_lengths": "0..3 (read), 0..2 (write)", "max_file_size_reached": 8, "dir_entries": "0..3", "dir_read_calls": 3, "outside": "longer histories, several handles (thorough), files larger than 8 bytes (CUT), access mode 3, directory seeks"}
 		},
 		Trusted: []string{"posixref file model (/verif/harness/posix), cross-validated against *os.File on tmpfs on every explored path"},
 	})
